@@ -15,7 +15,7 @@ from lib import Case
 TRUSTED_COMMON = [
     "Coq 8.16.1 kernel (coqc; vm_compute used for computed witnesses; no native_compute)",
     "hand-written Gallina model of the Go code (modelled, not verified): tied to /repo by the correspondence run of this check",
-    "extraction (ExtrOcamlBasic, ExtrOcamlString: bool/option/list/prod/unit/sumbool -> OCaml, ascii -> char, string -> char list), OCaml 4.13.1, ocaml/modelcli.ml",
+    "extraction (ExtrOcamlBasic, ExtrOcamlString: bool/option/list/prod/unit/sumbool -> OCaml, ascii -> char, string -> char list; one further directive: Extract Inlined Constant List.rev => OCaml List.rev), OCaml 4.13.1, ocaml/modelcli.ml",
     "Go overlay driver harness/*.go compiled into /repo's package main; Python generators/comparators in tools/",
 ]
 
